@@ -146,7 +146,7 @@ theorem find_id {l : List Req} {r : Req} {id : Nat} (hf : l.find? (·.id == id) 
 theorem good_step {v0 : Nat} {p : Bool} {s s' : State} {e : Ev} (g : Good v0 s) (h : step (fixed p) s e = some s') :
     Good v0 s' := by
   cases e with
-  | start id base =>
+  | start id base content =>
     simp only [step, fixed] at h
     split at h
     · cases h
